@@ -676,6 +676,44 @@ def normalise(prog):
                 did = True
         if not did:
             break
+    # immediately invoked closures: a closure that is new relative to the baseline, takes no arguments and is only ever called
+    # (`let steps = || -> Result<()> { .. }; match steps() { .. }`) is expanded at its call like a helper; its captured variables
+    # are then read through the closure value, which provenance resolves field by field
+    for p, F in list(prog.fns.items()):
+        if F.get("kind") == "Closure" or not F.get("blocks"):
+            continue
+        for bidx in range(len(F["blocks"])):
+            blk = F["blocks"][bidx]
+            t = blk["term"]
+            if t["k"] != "call" or blk.get("cleanup") or not (t.get("callee") or "").endswith(("FnOnce::call_once", "FnMut::call_mut", "Fn::call")) or len(t.get("args", [])) != 2:
+                continue
+            a0 = t["args"][0]
+            if a0.get("k") not in ("move", "copy") or a0["p"].get("p"):
+                continue
+            cl = a0["p"]["l"]
+            # the closure value (or a reference to it): find the one aggregate that defines it in F
+            def closure_of(local, depth=0):
+                defs = [(b2, st) for b2 in F["blocks"] for st in b2["stmts"] if st["k"] == "assign" and st["dst"]["l"] == local and not st["dst"].get("p")]
+                if len(defs) != 1 or depth > 3:
+                    return None, None
+                rv = defs[0][1]["rv"]
+                if rv["k"] == "agg" and rv.get("ak") == "closure":
+                    return rv.get("closure") or rv.get("adt"), local
+                if rv["k"] == "ref" and not rv["p"].get("p"):
+                    return closure_of(rv["p"]["l"], depth + 1)
+                if rv["k"] == "use" and rv["a"].get("k") in ("move", "copy") and not rv["a"]["p"].get("p"):
+                    return closure_of(rv["a"]["p"]["l"], depth + 1)
+                return None, None
+            cpath, cval = closure_of(cl)
+            G = prog.fns.get(cpath) if cpath else None
+            if G is None or cpath in kn or G.get("argc") != 1 or len(G["blocks"]) > MAX_BLOCKS * 2:
+                continue
+            # called exactly once and never handed to anybody else
+            uses = sum(1 for b2 in F["blocks"] if b2["term"]["k"] == "call" for a in b2["term"].get("args", []) if a.get("k") in ("move", "copy") and a["p"]["l"] in (cl, cval))
+            if uses != 1:
+                continue
+            inline_call(F, bidx, G)
+            expanded.add(cpath)
     for f in prog.fns.values():
         if f.get("inlined"):
             thread_variants(f)
